@@ -273,6 +273,34 @@ fn parse_template(text: &str) -> Vec<Result<String, ItemSpec>> {
                     cur = Some(spec);
                     sec = Sec::None;
                 }
+                "frag" => {
+                    if cur.is_some() {
+                        die(&format!("template line {}: nested //@frag", ln + 1));
+                    }
+                    // //@frag <file> <selector> : <arg METHOD K | closure N | let NAME> as <name>
+                    let (main, fr) = arg.rsplit_once(" : ").unwrap_or_else(|| die("//@frag file selector : kind anchor as name"));
+                    let (file, selector) = main.trim().split_once(char::is_whitespace).unwrap_or_else(|| die("//@frag file selector"));
+                    let (what, name) = fr.rsplit_once(" as ").unwrap_or_else(|| die("//@frag ... as name"));
+                    let (kind, anchor) = what.trim().split_once(char::is_whitespace).unwrap_or_else(|| die("//@frag kind anchor"));
+                    let mut spec = ItemSpec { tmpl_line: ln + 1, mode: "verify".into(), ..Default::default() };
+                    spec.file = file.to_string();
+                    spec.selector = selector.trim().to_string();
+                    spec.fragment = Some(FragmentSpec { kind: kind.to_string(), anchor: anchor.trim().to_string(), name: name.trim().to_string(), params: String::new(), ret: String::new() });
+                    cur = Some(spec);
+                    sec = Sec::None;
+                }
+                "skeleton" => {
+                    // //@skeleton <file> <selector> : hole; hole; ... = <hash>
+                    let (main, rest) = arg.split_once(" : ").unwrap_or_else(|| die("//@skeleton file selector : holes = hash"));
+                    let (holes, hash) = rest.rsplit_once(" = ").unwrap_or_else(|| die("//@skeleton ... = hash"));
+                    let (file, selector) = main.trim().split_once(char::is_whitespace).unwrap_or_else(|| die("//@skeleton file selector"));
+                    let mut spec = ItemSpec { tmpl_line: ln + 1, mode: "skeleton".into(), ..Default::default() };
+                    spec.file = file.to_string();
+                    spec.selector = selector.trim().to_string();
+                    spec.sig = holes.split(';').map(|h| h.trim().to_string()).filter(|h| !h.is_empty()).collect();
+                    spec.ret = Some(hash.trim().to_string());
+                    out.push(Err(spec));
+                }
                 "end" => {
                     match cur.take() {
                         Some(s) => out.push(Err(s)),
@@ -288,7 +316,8 @@ fn parse_template(text: &str) -> Vec<Result<String, ItemSpec>> {
                         "sig" => sec = Sec::Sig,
                         "first" => sec = Sec::First,
                         "retname" => spec.retname = Some(arg.to_string()),
-                        "ret" => spec.ret = Some(arg.to_string()),
+                        "params" => { if let Some(f) = spec.fragment.as_mut() { f.params = arg.to_string(); } else { die("//@params outside //@frag"); } }
+                        "ret" => { if let Some(f) = spec.fragment.as_mut() { f.ret = arg.to_string(); } else { spec.ret = Some(arg.to_string()); } }
                         "viter" => spec.viter = true,
                         "attr" => spec.attrs.push(arg.to_string()),
                         "loop" => {
@@ -545,6 +574,110 @@ fn apply_edits(src: &str, start: usize, end: usize, edits: &mut Vec<Edit>, em: &
     }
 }
 
+fn fnv64(s: &str) -> String {
+    let mut h: u64 = 0xcbf29ce484222325;
+    for b in s.bytes() {
+        h ^= b as u64;
+        h = h.wrapping_mul(0x100000001b3);
+    }
+    format!("{:016x}", h)
+}
+
+/// locate a fragment inside a function body: returns its byte span
+fn locate_fragment(c: &rewrite::Collector, kind: &str, anchor: &str, sel: &str) -> (usize, usize) {
+    match kind {
+        "arg" => {
+            let (m, k) = anchor.split_once(char::is_whitespace).unwrap_or_else(|| die("fragment: arg METHOD K"));
+            let k: usize = k.trim().parse().unwrap_or_else(|_| die("fragment: arg METHOD K"));
+            let hits: Vec<&(String, Vec<(usize, usize)>)> = c.method_calls.iter().filter(|(n, _)| n == m).collect();
+            if hits.len() != 1 || hits[0].1.len() <= k {
+                die(&format!("lost anchor: {} has {} calls of `.{}` (need exactly one with > {} arguments)", sel, hits.len(), m, k));
+            }
+            hits[0].1[k]
+        }
+        "closure" => {
+            let n: usize = anchor.parse().unwrap_or_else(|_| die("fragment: closure N"));
+            match c.closure_nodes.get(n) {
+                Some(cl) => cl.body,
+                None => die(&format!("lost anchor: {} has no closure {}", sel, n)),
+            }
+        }
+        "let" => {
+            match c.lets.iter().filter(|(n, _)| n == anchor).collect::<Vec<_>>().as_slice() {
+                [one] => one.1,
+                other => die(&format!("lost anchor: {} has {} `let {} = ...` statements", sel, other.len(), anchor)),
+            }
+        }
+        _ => die(&format!("unknown fragment kind {}", kind)),
+    }
+}
+
+fn emit_fragment(em: &mut Emit, spec: &ItemSpec, src: &str, parsed: &syn::File, items_json: &mut Vec<Value>) {
+    let found = find(parsed, &spec.selector);
+    if found.len() != 1 {
+        die(&format!("lost anchor: selector `{}` matches {} items (template line {})", spec.selector, found.len(), spec.tmpl_line));
+    }
+    let (im, f) = match &found[0] {
+        Found::ImplFn(im, f) => (*im, *f),
+        _ => die("fragments are only supported for methods"),
+    };
+    let mut c = rewrite::Collector::default();
+    c.visit_block(&f.block);
+    if spec.mode == "skeleton" {
+        let mut holes: Vec<(usize, usize)> = Vec::new();
+        for h in &spec.sig {
+            let (kind, anchor) = h.split_once(char::is_whitespace).unwrap_or_else(|| die("skeleton hole: kind anchor"));
+            holes.push(locate_fragment(&c, kind, anchor.trim(), &spec.selector));
+        }
+        holes.sort();
+        let (_, fe) = br(f.span());
+        let fs = br(f.sig.span()).0; // doc comments / attributes / visibility are not part of the skeleton
+        let mut t = String::new();
+        let mut pos = fs;
+        for (a, b) in &holes {
+            if *a < pos { die("skeleton: overlapping holes"); }
+            t.push_str(&src[pos..*a]);
+            t.push_str(" <HOLE> ");
+            pos = *b;
+        }
+        t.push_str(&src[pos..fe]);
+        let h = fnv64(&norm(&t));
+        let want = spec.ret.clone().unwrap_or_default();
+        if h != want {
+            die(&format!("lost anchor: skeleton of {} changed (plumbing around the lifted fragments): recorded {} actual {}\n{}", spec.selector, want, h, norm(&t)));
+        }
+        em.push(&format!("// skeleton of {} {} unchanged ({}): {}\n", spec.file, spec.selector, h, norm(&t)), json!({"kind": "marker"}));
+        items_json.push(json!({"file": spec.file, "path": "", "selector": format!("{} [skeleton]", spec.selector), "mode": "skeleton",
+            "byte_start": fs, "byte_end": fe, "src_line_start": line_of(src, fs), "src_line_end": line_of(src, fe),
+            "out_line_start": em.line - 1, "out_line_end": em.line - 1, "rewrites": [format!("R8 skeleton hash {}", h)], "template_line": spec.tmpl_line}));
+        return;
+    }
+    let fr = spec.fragment.as_ref().unwrap();
+    let (s, e) = locate_fragment(&c, &fr.kind, &fr.anchor, &spec.selector);
+    let out_start = em.line;
+    em.push(&format!("//@begin-fragment {} {} [{} {}] as {} src_lines={}-{}\n", spec.file, spec.selector, fr.kind, fr.anchor, fr.name, line_of(src, s), line_of(src, e)), json!({"kind": "marker"}));
+    let mut head = format!("impl {} {{\n", type_name(&im.self_ty));
+    for a in &spec.attrs {
+        let _ = writeln!(head, "#[{}]", a);
+    }
+    let _ = write!(head, "pub fn {}({}) -> {}\n", fr.name, fr.params, fr.ret);
+    em.push(&head, json!({"kind": "R8 fragment head"}));
+    let mut t = String::new();
+    for l in &spec.sig { t.push_str(l); t.push('\n'); }
+    em.push(&t, json!({"kind": "sig"}));
+    em.push("{\n", json!({"kind": "wrap"}));
+    let mut t = String::new();
+    for l in &spec.first { t.push_str(l); t.push('\n'); }
+    em.push(&t, json!({"kind": "first"}));
+    em.push(&src[s..e], json!({"kind": "verbatim", "file": spec.file, "src_line": line_of(src, s)}));
+    em.push("\n}\n}\n//@end\n", json!({"kind": "wrap"}));
+    items_json.push(json!({"file": spec.file, "path": "", "selector": format!("{} [{} {}]", spec.selector, fr.kind, fr.anchor), "mode": "fragment",
+        "byte_start": s, "byte_end": e, "src_line_start": line_of(src, s), "src_line_end": line_of(src, e),
+        "out_line_start": out_start, "out_line_end": em.line - 1,
+        "rewrites": [format!("R8 fragment `{}` lifted into fn {}({}) -> {}", norm(&src[s..e]).chars().take(80).collect::<String>(), fr.name, fr.params, fr.ret)],
+        "template_line": spec.tmpl_line}));
+}
+
 fn emit_item(
     em: &mut Emit,
     spec: &ItemSpec,
@@ -553,6 +686,12 @@ fn emit_item(
     parsed: &syn::File,
     items_json: &mut Vec<Value>,
 ) {
+    if spec.fragment.is_some() || spec.mode == "skeleton" {
+        emit_fragment(em, spec, src, parsed, items_json);
+        let n = items_json.len();
+        items_json[n - 1]["path"] = json!(path.to_string_lossy());
+        return;
+    }
     let file = spec.file.as_str();
     let found = find(parsed, &spec.selector);
     if found.len() != 1 {
